@@ -144,7 +144,7 @@ fn raw_check<C: Cm>(case: &RawCase) -> PResult {
     Ok(Pass::new(count > 0).class("raw_image"))
 }
 
-fn raw_dispatch(c: &RawCase) -> PResult {
+pub fn raw_dispatch(c: &RawCase) -> PResult {
     with_codec!(c.codec, C, raw_check::<C>(c))
 }
 
